@@ -767,6 +767,11 @@ class WorkerPool:
                 tqdm_manager_owner = TqdmManager.LOCK is None
                 TqdmManager.start_manager(self.pool_params.use_dill)
 
+            # An earlier apply task can have left the pool in a failed state (e.g., when worker_init failed). The workers
+            # shut down in that case, so we clean up and start over
+            if self._workers and self._last_job_type == JobType.APPLY and self._worker_comms.exception_thrown():
+                self.terminate()
+
             # Start workers if there aren't any. If they already exist check if we need to pass on new parameters
             if self._workers and not self._worker_comms.is_initialized():
                 logger.warning("WorkerPool parameters changed while keep_alive=True. Restarting workers.")
@@ -966,6 +971,11 @@ class WorkerPool:
             MPIRE will raise a ``TimeoutError``. Use ``None`` to disable (default).
         :return: Result of the function ``func`` applied to the task
         """
+        # An earlier apply task can have left the pool in a failed state (e.g., when worker_init failed). The workers shut
+        # down in that case, so we clean up and start over
+        if self._workers and self._last_job_type == JobType.APPLY and self._worker_comms.exception_thrown():
+            self.terminate()
+
         # Check if the pool has been started
         if not self._workers:
             self.map_params = WorkerMapParams(func, worker_init, worker_exit, None, False, task_timeout,
